@@ -4,9 +4,13 @@ import (
 	"fmt"
 	"io"
 	"os"
+
+	"github.com/mikefarah/yq/v4/pkg/verifhook"
 )
 
 func tryRenameFile(from string, to string) error {
+	_ = verifhook.Step("inplace.rename", to)
+	defer func() { _ = verifhook.Step("inplace.replaced", to) }()
 	if renameError := os.Rename(from, to); renameError != nil {
 		log.Debugf("Error renaming from %v to %v, attempting to copy contents", from, to)
 		log.Debug(renameError.Error())
@@ -23,6 +27,7 @@ func tryRenameFile(from string, to string) error {
 
 func tryRemoveTempFile(filename string) {
 	log.Debug("Removing temp file: %v", filename)
+	_ = verifhook.Step("tmp.remove", filename)
 	removeErr := os.Remove(filename)
 	if removeErr != nil {
 		log.Errorf("Failed to remove temp file: %v", filename)
@@ -34,17 +39,30 @@ func copyFileContents(src, dst string) (err error) {
 	// ignore CWE-22 gosec issue - that's more targeted for http based apps that run in a public directory,
 	// and ensuring that it's not possible to give a path to a file outside thar directory.
 
+	if err = verifhook.Step("copy.openSrc", src); err != nil {
+		return err
+	}
 	in, err := os.Open(src) // #nosec
 	if err != nil {
 		return err
 	}
 	defer safelyCloseFile(in)
+	if err = verifhook.Step("copy.createDst", dst); err != nil {
+		return err
+	}
 	out, err := os.Create(dst) // #nosec
 	if err != nil {
 		return err
 	}
+	_ = verifhook.Step("copy.created", dst)
 	defer safelyCloseFile(out)
+	if err = verifhook.Step("copy.copy", dst); err != nil {
+		return err
+	}
 	if _, err = io.Copy(out, in); err != nil {
+		return err
+	}
+	if err = verifhook.Step("copy.sync", dst); err != nil {
 		return err
 	}
 	return out.Sync()
@@ -76,6 +94,9 @@ func createTempFile() (*os.File, error) {
 		return nil, err
 	}
 
+	if err = verifhook.Step("tmp.create"); err != nil {
+		return nil, err
+	}
 	file, err := os.CreateTemp("", "temp")
 	if err != nil {
 		return nil, err
